@@ -30,8 +30,10 @@ type c10Args struct {
 type c10Post struct {
 	sess string // session label (A/B)
 	id   int
-	tag  string
-	rec  *httptest.ResponseRecorder
+	// idJSON: the id as it is written on the wire (the number id, or - typedIDs - the string with the same text)
+	idJSON string
+	tag    string
+	rec    *httptest.ResponseRecorder
 }
 
 type c10Opts struct {
@@ -54,6 +56,9 @@ type c10Opts struct {
 	// each logging with its own request context.  The record travels like the handler's other
 	// notifications: on the exchange of its own request, once, with its own payload.
 	slog bool
+	// typedIDs: the two concurrent requests of a session carry the ids 1 and "1": a number and a string
+	// with the same text are different ids, each with its own exchange
+	typedIDs bool
 	// oneSession: only session A exists (two concurrent requests): a smaller system, explored deeper
 	oneSession bool
 }
@@ -240,9 +245,13 @@ func c10Run(o c10Opts) vs.Verdict {
 		if o.dupID {
 			p.id = 1
 		}
+		p.idJSON = fmt.Sprint(p.id)
+		if o.typedIDs {
+			p.idJSON = []string{"", "1", `"1"`}[p.id]
+		}
 		posts = append(posts, p)
 		vs.Go(func() {
-			p.rec = post(sids[p.sess], fmt.Sprintf(`{"jsonrpc":"2.0","id":%d,"method":"tools/call","params":{"name":"echo","arguments":{"tag":%q}}}`, p.id, p.tag))
+			p.rec = post(sids[p.sess], fmt.Sprintf(`{"jsonrpc":"2.0","id":%s,"method":"tools/call","params":{"name":"echo","arguments":{"tag":%q}}}`, p.idJSON, p.tag))
 			done <- 1
 		})
 	}
@@ -293,7 +302,7 @@ func c10Run(o c10Opts) vs.Verdict {
 				if tag != p.tag {
 					f.failf("response-on-foreign-exchange", "the exchange of request %s (session %s, id %d) carries the response of %s", p.tag, p.sess, p.id, tag)
 				}
-				if id, _ := m["id"].(float64); int(id) != p.id {
+				if id, _ := json.Marshal(m["id"]); string(id) != p.idJSON {
 					f.failf("response-id", "the exchange of request %s carries a response with id %v", p.tag, m["id"])
 				}
 			case "notification":
@@ -909,6 +918,10 @@ func TestVerifC10(t *testing.T) {
 		mk("stateful-json/out-of-band-messages", c10Opts{jsonResp: true, outOfBand: true}, b),
 		mk("stateful-sse/broadcast-from-handlers", c10Opts{broadcast: true}, b),
 		mk("stateful-sse/one-session/handlers-log-through-one-slog-handler", c10Opts{slog: true, oneSession: true}, 2),
+		mk("stateful-sse/ids-1-and-string-1", c10Opts{typedIDs: true}, env.Pick(0, 2)),
+		mk("stateful-json/ids-1-and-string-1", c10Opts{typedIDs: true, jsonResp: true}, env.Pick(0, 2)),
+		mk("stateful-sse+store/ids-1-and-string-1", c10Opts{typedIDs: true, store: true}, env.Pick(0, 2)),
+		mk("stateless-sse/ids-1-and-string-1", c10Opts{typedIDs: true, stateless: true}, env.Pick(0, 2)),
 		mk("stateful-sse/duplicate-in-flight-id", c10Opts{dupID: true}, env.Pick(2, 3)),
 		mk("stateful-sse+store/duplicate-in-flight-id", c10Opts{dupID: true, store: true}, env.Pick(2, 3)),
 		vs.E1(t, "stateful-sse/server-requests-during-calls", b, vs.Options{}, func() vs.Verdict { return c10ServerRequests(false) }),
